@@ -331,6 +331,14 @@ def handleProg (op : String) (j : Json) : Except String (Option (Prog Json)) := 
       match ← Fido.unmarshalBlob raw pools with
       | some payload => pure (Json.mkObj [("ok", true), ("payload", hex payload)])
       | none => pure (Json.mkObj [("ok", false)]))
+  | "fido.rootCerts" =>
+    let entries ← (← getArr j "entries").toList.mapM fun e => match e with
+      | Json.str h => unhex h
+      | _ => throw "entries: strings expected"
+    return some (do
+      match ← Fido.parseRootCertificates entries with
+      | some cs => pure (Json.mkObj [("ok", true), ("count", cs.length), ("ders", Json.arr ((entries.filterMap Fido.rootCertDer).map hex).toArray)])
+      | none => pure (Json.mkObj [("ok", false)]))
   | "config" =>
     let opts ← parseVerifyOpts j
     let cfg := getVerifyConfig opts
